@@ -10,7 +10,7 @@
              that exists already and is used by an ingress that did not change.
      All of them are batch_wf, so model_partial_step_wf covers them; the examples
      evaluate them as well.
-   - pick_ing_old / sync_partial_old: the merge of syncPartial as /repo had it before the
+   - pick_ing_old / sync_partial_old: the choice of the object in syncPartial as /repo had it before the
      commits "an Ingress added and removed within one batch stayed configured" (e942d77)
      and "an Ingress added and updated within one batch was converted from the outdated
      added object" (703d978): the added object always wins.  It coincides with
@@ -430,3 +430,83 @@ Example general_history_redeclares : ~ no_redecl gw0.
 Proof.
   unfold no_redecl. intros H. vm_compute in H. inversion H as [|? ? Hn _]. apply Hn. left. reflexivity.
 Qed.
+
+(* ------------------------------------------------------------------ *)
+(* an updated ingress that was not tracked yet (/repo commit 3533ecf)  *)
+(* ------------------------------------------------------------------ *)
+(* the merge before that commit: the updated ingresses are converted only when the tracker
+   finds them; and trackAddedIngress before commit 42edb61: the hosts of the rules only *)
+Definition merge_names_old (dirty : list string) (b : batch) : list string :=
+  let alive := fun n => negb (existsb (String.eqb n) (b_del b)) in
+  dedup (filter alive dirty ++ map i_full (b_add b)).
+
+Definition track_added_ing_old (w : world) (s : cstate) (T : ctracker) (i : ingress) : ctracker :=
+  fold_left (fun T rule =>
+    let T' := track T (KIngress, i_full i) (KHost, norm_host (fst rule)) in
+    fold_left (fun T r =>
+      match find_backend w s i r with
+      | Some bid => track T (KIngress, i_full i) (KBackend, bid)
+      | None => T
+      end) (snd rule) T') (i_rules i) T.
+
+Definition sync_partial_gen
+    (trk : world -> cstate -> ctracker -> ingress -> ctracker)
+    (mrg : list string -> batch -> list string) (w' : world) (x : st) (b : batch) : option st :=
+  let '(s, T) := x in
+  let T1 := fold_left (trk w' s) (b_add b ++ b_upd b) T in
+  match query_remove node_eqb T1 (b_links b) with
+  | None => None
+  | Some (out, T2) =>
+      let s1 := remove_all s out in
+      let names := mrg (names_of KIngress out) b in
+      let ings := sort_ings (flat_map (fun n => opt_list (pick_ing w' b n)) names) in
+      Some (fold_left (sync_ingress w') ings (s1, T2))
+  end.
+
+Lemma sync_partial_gen_model w' x b :
+  sync_partial_gen track_added_ing merge_names w' x b = sync_partial w' x b.
+Proof. destruct x as [s T]. reflexivity. Qed.
+
+(* d/e has an empty spec (nothing was configured for it, no tracking link); it is updated
+   and now has a tls block for t.local *)
+Definition ing_e0 := {| i_ns := "d"; i_name := "e"; i_stamp := 2; i_class := None; i_rules := []; i_tls := [] |}.
+Definition ing_e1 := {| i_ns := "d"; i_name := "e"; i_stamp := 2; i_class := None; i_rules := [];
+                        i_tls := [(["t.local"], "")] |}.
+Definition ew0 := W [ing_k; ing_e0] svc1.
+Definition ew1 := W [ing_k; ing_e1] svc1.
+Definition eb1 := {| b_links := [(KIngress, "d/e")]; b_add := []; b_upd := [ing_e1]; b_del := [] |}.
+Definition hosts_kt (o : option st) : option (list (option hostrec)) :=
+  match o with Some x => Some (map (get_host (fst x)) ["k.local"; "t.local"]) | None => None end.
+
+Example upd_untracked_wf : batch_ok ew0 ew1 eb1.
+Proof. apply batch_okb_sound. vm_compute. reflexivity. Qed.
+
+(* the model (= the repaired code) converts it: by the theorem, and evaluated *)
+Example upd_untracked_ok :
+  (exists x', sync_partial ew1 (sync_full ew0) eb1 = Some x' /\ Inv ew1 x') /\
+  hosts_kt (sync_partial ew1 (sync_full ew0) eb1) = hosts_kt (Some (sync_full ew1)) /\
+  get_host (fst (sync_full ew1)) "t.local" = Some {| h_paths := []; h_tls := Some "DEFAULT" |}.
+Proof.
+  split; [|vm_compute; split; reflexivity].
+  apply (model_partial_step ew0); [apply sync_full_Inv|apply upd_untracked_wf|apply H_view_same; reflexivity].
+Qed.
+
+(* the code before both commits: d/e is in changed.Links but has no link, QueryLinks does
+   not return it, the merge does not add it: t.local is never configured *)
+Example upd_untracked_old_refuted :
+  hosts_kt (sync_partial_gen track_added_ing_old merge_names_old ew1 (sync_full ew0) eb1)
+    = Some [get_host (fst (sync_full ew0)) "k.local"; None] /\
+  hosts_kt (Some (sync_full ew1))
+    = Some [get_host (fst (sync_full ew0)) "k.local"; Some {| h_paths := []; h_tls := Some "DEFAULT" |}].
+Proof. vm_compute. split; reflexivity. Qed.
+
+(* either repair alone is enough in the model: the new merge with the old pre-tracking
+   (commit 3533ecf), or the old merge with the tls hosts pre-tracked (commit 42edb61: the
+   new link makes QueryLinks return d/e).  The case of /repo that needed 3533ecf, an
+   update that only sets spec.defaultBackend, is outside the model (no default backend). *)
+Example upd_untracked_each_repair_ok :
+  hosts_kt (sync_partial_gen track_added_ing_old merge_names ew1 (sync_full ew0) eb1)
+    = hosts_kt (Some (sync_full ew1)) /\
+  hosts_kt (sync_partial_gen track_added_ing merge_names_old ew1 (sync_full ew0) eb1)
+    = hosts_kt (Some (sync_full ew1)).
+Proof. vm_compute. split; reflexivity. Qed.
